@@ -219,6 +219,7 @@ def main():
     ap.add_argument("--scale", type=float, default=0.25, help="fraction of each check's quick-tier case count")
     ap.add_argument("--only", default=None, help="file-suffix:line to restrict to")
     ap.add_argument("--list", action="store_true")
+    ap.add_argument("--survivors", action="store_true", help="re-run only the survivors (and broken) recorded in mutation/<group>.json")
     a = ap.parse_args()
     for c in GROUPS[a.group]["checks"]:
         src = open(os.path.join(VERIF, "hiosim", "checks", c.lower() + ".py")).read()
@@ -227,6 +228,10 @@ def main():
     if a.only:
         f, l = a.only.rsplit(":", 1)
         muts = [m for m in muts if m["file"].endswith(f) and m["line"] == int(l)]
+    if a.survivors:
+        prev = json.load(open(os.path.join(VERIF, "mutation", "%s.json" % a.group)))
+        keys = set((m["file"], m["line"], m["new"]) for m in prev["survivors"] + prev.get("broken_list", []))
+        muts = [m for m in muts if (m["file"], m["line"], m["new"]) in keys]
     if a.limit:
         step = max(1, len(muts) // a.limit)
         muts = muts[::step][:a.limit]
